@@ -7,7 +7,7 @@ M = 32768
 def schedules(rng, thorough, tlc_losses):
     S = []
     def add(name, **kw):
-        d = dict(name=name, drops=[], dups=[], delays=[], lossPct=0, lossMs=0, outageAtMs=0, outageMs=0, sizes=[1000, M - 1, M, M + 1, 5, 2 * M + 7, 100000], both=False, boundMs=25000, pauseMs=0, lateClose=False, dupAckEvery=0)
+        d = dict(name=name, drops=[], dups=[], delays=[], lossPct=0, lossMs=0, outageAtMs=0, outageMs=0, sizes=[1000, M - 1, M, M + 1, 5, 2 * M + 7, 100000], both=False, boundMs=25000, pauseMs=0, lateClose=False, dupAckEvery=0, reverse=False, reuseBuf=False)
         d.update(kw); S.append(d)
     add("faithful"); add("faithful-both", both=True)
     add("tiny-writes", sizes=[1] * 50 + [0, 3, 0, 7]); add("one-big-write", sizes=[700000])
@@ -23,6 +23,18 @@ def schedules(rng, thorough, tlc_losses):
     add("drop-fin", drops=[dict(dir=0, kind="fin", no=nframes + 1, times=1)])
     add("drop-fin-x2-both", drops=[dict(dir=0, kind="fin", no=nframes + 1, times=2)], both=True)
     add("drop-req", drops=[dict(dir=0, kind="req", no=0, times=1)]); add("drop-resp", drops=[dict(dir=1, kind="resp", no=0, times=1)])
+    # the accepting end answers at once and closes (a server that prints a banner and hangs up), with the tube
+    # handshake still incomplete on the opening end because the answer to its request was lost
+    for sizes in ([11], [5, M + 1], []):
+        add("reverse-quick-close-%d" % len(sizes), sizes=sizes, reverse=True, boundMs=12000)
+        add("reverse-quick-close-%d-drop-resp" % len(sizes), sizes=sizes, reverse=True, boundMs=12000, drops=[dict(dir=1, kind="resp", no=0, times=1)])
+        add("reverse-quick-close-%d-drop-req" % len(sizes), sizes=sizes, reverse=True, boundMs=12000, drops=[dict(dir=0, kind="req", no=0, times=1)])
+    # writers that reuse one buffer for every Write (io.Copy, bufio): large single writes, with and without loss
+    big = [2 * M, M, 3 * M + 5, M - 1, 4 * M, M + 1, 65536, 65536, 100, 65536]
+    add("reused-buffer", sizes=big, reuseBuf=True); add("reused-buffer-both", sizes=big, reuseBuf=True, both=True)
+    add("reused-buffer-small", sizes=[100, 2000, 31, 5000] * 20, reuseBuf=True)
+    add("reused-buffer-loss", sizes=big, reuseBuf=True, lossPct=10, lossMs=1500)
+    add("reused-buffer-drop-3", sizes=big, reuseBuf=True, drops=[dict(dir=0, kind="data", no=3, times=2)])
     # request/response-like traffic: small writes with pauses; a late duplicate of an old acknowledgement arrives
     # after the newest frame was lost, and nothing else is in flight
     for k in (2, 3, 4):
@@ -152,7 +164,7 @@ def run(v, tier, replay):
         seen.add((e["sc"], e["ev"]))
         if e["ev"] == "done":
             out = S[e["sc"]]["outageMs"]
-            sig = "incomplete transfer: scenario %s (outage %d ms): reader got %s of %s bytes, end-of-stream missing, %d ms after start" % (re.sub(r"-\d+$", "", name) if name.startswith("random") else name, out, e.get("gotB"), e.get("want"), e["ms"])
+            sig = "incomplete transfer: scenario %s (outage %d ms): reader got %s of %s bytes, end-of-stream missing, %d ms after start%s" % (re.sub(r"-\d+$", "", name) if name.startswith("random") else name, out, e.get("gotA") if S[e["sc"]].get("reverse") else e.get("gotB"), e.get("want"), e["ms"], " (%s)" % e["why"] if e.get("why") else "")
             v.violation(sig, "real tube pair over the scripted network; all faults had ended %d ms before the deadline" % S[e["sc"]]["boundMs"], dict(schedule=S[e["sc"]], event=e))
         else:
             v.violation("stream violation in scenario %s: %s" % (name, json.dumps(e, sort_keys=True)), "real tube pair over the scripted network, judged by Trace_HopTubes", dict(schedule=S[e["sc"]], event=e))
